@@ -553,9 +553,10 @@ pub fn c10s_label(_spec: &Spec, sub: usize) -> String {
 fn c10s_one(spec: &Spec, bytes: &[u8], exp: &Expected, p: &Progress, ci: usize) -> Outcome {
 	let (cname, comp) = COMPS[ci];
 	let game = tri!(source(bytes, false, false));
+	let zero = game.frames.len() == 0;
 	let Some(out) = tri!(slpp_write(cname, game, comp, spec.v2())) else { return Holds };
-	let Some(full) = tri!(slpp_read_valid(p, ci, cname, "the .slpp just written", &out, false, false)) else { return Holds };
-	let Some(g) = tri!(slpp_read_valid(p, ci, cname, "the .slpp just written", &out, true, false)) else { return Holds };
+	let Some(full) = tri!(slpp_read_valid(p, ci, cname, "the .slpp just written", &out, false, zero)) else { return Holds };
+	let Some(g) = tri!(slpp_read_valid(p, ci, cname, "the .slpp just written", &out, true, zero)) else { return Holds };
 	let ends = |x: &Game| x.end.as_ref().map(|e| e.bytes.0.clone());
 	if g.start.bytes != full.start.bytes || g.start.bytes.0 != exp.start {
 		return v(cname, "start bytes of the skip_frames read differ from the full read / the bytes written".to_string());
